@@ -43,7 +43,7 @@ func canon(c *Ctx, e ast.Expr, depth int) string {
 				return fmt.Sprintf("$%d", i)
 			}
 		}
-		defs := c.DefsOf(v)
+		defs := LiveDefs(c.DefsOf(v))
 		if depth > 0 && len(defs) == 1 && defs[0].Rhs != nil {
 			s := canon(c, defs[0].Rhs, depth-1)
 			if defs[0].N > 1 {
